@@ -137,8 +137,13 @@ func c10MkErr(k int) error {
 // (every hang costs the watchdog time; the replay / shrinking of a hang runs in a fresh process).
 var c10Hangs int32
 
+// c10Leaks counts the calls of this process that left goroutines behind: every one of them costs the whole settle
+// time (and is a violation already), so after c10MaxLeaks of them the remaining operations are not executed either.
+var c10Leaks int32
+
 const (
 	c10MaxHangs    = 3
+	c10MaxLeaks    = 5
 	c10ProbeYields = 400
 	c10HangMax   = 4 * time.Second
 	c10SettleMax = 1500 * time.Millisecond
@@ -286,7 +291,7 @@ func c10Exec(op []string) string {
 	if len(op) == 0 || op[0] != "run" {
 		return "bad-op"
 	}
-	if atomic.LoadInt32(&c10Hangs) >= c10MaxHangs {
+	if atomic.LoadInt32(&c10Hangs) >= c10MaxHangs || atomic.LoadInt32(&c10Leaks) >= c10MaxLeaks {
 		return "res=skipped left=0 mapped=- reduced=- hist=- stalltimeouts=0 panicked=0 waitsbyret=0 nestedbad=0"
 	}
 	cfg := verifh.ParseCfg(strings.Join(op[1:], " "))
@@ -637,6 +642,7 @@ func c10Exec(op []string) string {
 	left := 0
 	if !verifh.SettleGoroutines(base, c10SettleMax) {
 		left = runtime.NumGoroutine() - base
+		atomic.AddInt32(&c10Leaks, 1)
 	}
 	mu.Lock()
 	defer mu.Unlock()
